@@ -1277,10 +1277,13 @@ default sentinel.  The view then satisfies `WFAt (viewBlank p i)` only, and:
 * an in-place scalar operation through the view treats the overflow cells as valid, changes
   them, and `writeBackView` carries the change into the parent's overflow block.
 
-Protocol form (checked with `#eval` on `runLines`):
+Protocol form (history of the finding; checked with `#eval` on `runLines` at the time):
 `cfg m kind=rec covord=0 spord=1 fields=i2,f8 primary=0 sentinel=7`,
-`single m r=v field=1 sentinel=5`, `copy v r=c` leaves the owning entry `c` ill-formed; with
-`upd m op=replace pix=5 vals=r3;2` … `sop v op=mul k=2 inplace=1` the parent `m` is. -/
+`single m r=v field=1 sentinel=5`, `copy v r=c` left the owning entry `c` ill-formed; with
+`upd m op=replace pix=5 vals=r3;2` … `sop v op=mul k=2 inplace=1` the parent `m` was.
+Since the `fix:` commit the library (and `opSingle`) refuses such a view (`err value`), and
+`World.get?` resolves a descriptor only if its sentinel is `viewBlank p i`; the API-level
+statement below remains true of `materializeView` called directly. -/
 
 def WFApi.exForeignView : Except Err (MapObj × MapObj × MapObj) := do
   let p ← apiMakeEmpty 0 1 (.recd [.int 16 true, .flt 64] 0) (some (.num 7 0)) []
